@@ -12,6 +12,8 @@ package varmq
 //@ ghost $completed fun Int
 //@ ghost $successful fun Int
 //@ ghost $failed fun Int
+// the Metrics object a Worker hands out (always the same one)
+//@ ghost $metricsOf fun Int
 // jobs: status, outcome accounting (number of results / errors delivered to the handle and the last ones), acknowledgement id, source queue
 //@ ghost $jstatus fun Int
 //@ ghost $nresults fun Int
@@ -111,4 +113,4 @@ package varmq
 //@   modifies $signals(self)
 //@   ensures $signals(self) == old($signals(self)) + 1
 //@ iface Worker.Metrics
-//@   ensures result != nil
+//@   ensures result != nil && result == $metricsOf(self)
